@@ -184,8 +184,9 @@ class Universe:
                   "tags": [list(t) for t in ev.tags], "content": ev.content, "sig": ev.sig}
         for sym in self.syms_of_id.get(ev.get("id"), []):
             ref = self.conc[sym]
+            # (tags are compared as canonical JSON text: in Python ["n", 1] == ["n", True] == ["n", 1.0])
             if all(ev.get(k) == ref[k] and type(ev.get(k)) is type(ref[k]) for k in ("id", "pubkey", "created_at", "kind", "content", "sig")) \
-                    and [list(t) for t in ev.get("tags", [])] == ref["tags"]:
+                    and C._dump([list(t) for t in ev.get("tags", [])]) == C._dump(ref["tags"]):
                 return sym
         return None
 
